@@ -182,11 +182,14 @@ class Interp(object):
         mod = getattr(self.fn, '_module', None)
         if mod is not None:
             def literal(v):
-                try:
-                    ast.literal_eval(v)
-                    return isinstance(v, (ast.Dict, ast.Tuple, ast.List, ast.Set, ast.Constant))
-                except Exception:
+                # a display of constants, names (of functions / classes), attribute chains and lambdas: a static table
+                if not isinstance(v, (ast.Dict, ast.Tuple, ast.List, ast.Set, ast.Constant)):
                     return False
+                for x in ast.walk(v):
+                    if isinstance(x, (ast.Call, ast.Subscript, ast.BinOp, ast.ListComp, ast.DictComp, ast.SetComp, ast.GeneratorExp, ast.Starred)):
+                        if not any(isinstance(p_, ast.Lambda) and any(y is x for y in ast.walk(p_)) for p_ in ast.walk(v)):
+                            return False
+                return True
 
             def touched(name):
                 for n in ast.walk(mod.tree):
@@ -223,6 +226,12 @@ class Interp(object):
                             out[(recv, n.targets[0].id)] = n.value
         self._consts = out
         return out
+
+    def _is_function_name(self, name):
+        mod = getattr(self.fn, '_module', None)
+        if mod is None or name in self._local_names():
+            return False
+        return any(isinstance(n, (ast.FunctionDef, ast.ClassDef)) and n.name == name for n in mod.tree.body)
 
     def _local_names(self):
         if getattr(self, '_locals', None) is None:
@@ -367,7 +376,7 @@ class Interp(object):
             r_ = self.subst(node.comparators[0], state)
             if isinstance(r_, ast.Constant) and r_.value is None and isinstance(node.ops[0], (ast.Is, ast.IsNot)) and (
                     isinstance(l, (ast.Lambda, ast.Dict, ast.List, ast.Tuple, ast.Set)) or
-                    (isinstance(l, ast.Name) and l.id in ('int', 'float', 'str', 'bool', 'list', 'dict', 'set', 'tuple'))):
+                    (isinstance(l, ast.Name) and (l.id in ('int', 'float', 'str', 'bool', 'list', 'dict', 'set', 'tuple') or self._is_function_name(l.id)))):
                 return isinstance(node.ops[0], ast.IsNot)
             if isinstance(l, ast.Constant) and isinstance(r_, ast.Constant):
                 same = (l.value is r_.value) if isinstance(node.ops[0], (ast.Is, ast.IsNot)) else (l.value == r_.value and type(l.value) is type(r_.value))
@@ -622,6 +631,10 @@ class Interp(object):
             if value is not None:
                 if isinstance(value, ast.IfExp):
                     value = value.body if self.cond(value.test, state, trace) else value.orelse
+                if self.symbolic and isinstance(value, ast.Call) and not (isinstance(value, ast.Name)):
+                    v2 = fold_consts(self.subst(value, state))
+                    if isinstance(v2, ast.Call):
+                        value = v2
                 if self.helpers is not None and isinstance(value, ast.Call) and self.helpers(value) is not None:
                     value = self.call_helper(self.helpers(value), value, state, trace)
                     if isinstance(value, bool):
